@@ -88,3 +88,7 @@ CLAIMED["C16"] = (
  "exhaustiveness and linkage lint: go/types interface-implementer enumeration vs. back-end type-switch arms; sibling agreement of basic-kind sub-switches; per-target symbol resolution of every constant call the back end emits, every reference inside the embedded .wat.ws runtime and every body-less .wa declaration (sources read with the repository's Wa parser and an own WAT reader), with the loader's file selection re-evaluated for each of the six target OSes",
  "Decides that every SSA instruction type the builder constructs has a non-fatal back-end arm, that nil constants of every nil-able kind and named types of every supported basic kind are materialised, and that for each target OS every runtime symbol the back end or the runtime's own WAT refers to is defined with one signature across per-target files. Does not decide validity of emitted modules (operand typing, argument counts at call sites), feature combinations, or fatal paths inside arms.",
  AST_BASE)
+CLAIMED["C15"] = (
+ "table agreement lint over the three per-kind hand-offs of a constant (type checker's representability bounds evaluated as Go constants from the source; back end's accessor / wir type / float precision per kind; literal spelling produced by the materialiser vs. parser used by the static-data encoder)",
+ "Decides that the representability bounds of every sized integer kind are exactly the kind's range, that every kind is materialised through the accessor of its signedness into the wir type of that kind with the kind's float precision, and that each literal spelling is parsed back with the same width and signedness by the static-data encoder. Does not decide the arithmetic of internal/constant, per-operator overflow detection, or float rounding.",
+ AST_BASE)
